@@ -74,14 +74,19 @@ Definition validate_short_name (n : name_in) (f : Z) : res (option str) :=
   end.
 
 (* ---- defaults ---- *)
-Inductive dflt := DNone | DScalar | DList.      (* kind of the default value handed to / kept by the object *)
+(* The default value handed to / kept by the object.  The code looks at it in two ways only: `default is not None` and
+   `isinstance(default, list)`; whatever else it is ('' 0 False, a tuple, ...) travels through untouched, so the model
+   carries it as the opaque wire value it came as: DScalar raw = any value that is neither None nor a list (falsy ones
+   included), DList items = a list with these items. *)
+Inductive dflt := DNone | DScalar (raw : sexp) | DList (items : list sexp).
+Definition is_dnone (d : dflt) : bool := match d with DNone => true | _ => false end.
 Definition opt_default (f' : Z) (d : dflt) : res dflt :=
   let multi := bit f' 5 in
   let accepts := negb (bit f' 2) in
-  let d0 := if multi then DList else DNone in
-  if accepts || negb (match d with DNone => true | _ => false end) then
+  let d0 := if multi then DList [] else DNone in
+  if accepts || negb (is_dnone d) then
     (if negb accepts then Err ValueError
-     else if multi then match d with DNone => Ok DList | DList => Ok DList | DScalar => Err ValueError end
+     else if multi then match d with DNone => Ok (DList []) | DList l => Ok (DList l) | DScalar _ => Err ValueError end
      else Ok d)
   else Ok d0.
 
@@ -105,10 +110,10 @@ Definition arg_defaults (f : Z) : Z :=
   if negb (bit f 4 || bit f 5 || bit f 6 || bit f 7) then setbit f 4 else f.
 Definition arg_default (f' : Z) (d : dflt) : res dflt :=
   let multi := bit f' 2 in
-  let d0 := if multi then DList else DNone in
-  if bit f' 1 || negb (match d with DNone => true | _ => false end) then
+  let d0 := if multi then DList [] else DNone in
+  if bit f' 1 || negb (is_dnone d) then
     (if bit f' 0 then Err ValueError
-     else if multi then match d with DNone => Ok DList | DList => Ok DList | DScalar => Err ValueError end
+     else if multi then match d with DNone => Ok (DList []) | DList l => Ok (DList l) | DScalar _ => Err ValueError end
      else Ok d)
   else Ok d0.
 Definition validate_arg_name (n : name_in) : res str :=
@@ -160,15 +165,27 @@ Definition dec_name (s : sexp) : option name_in :=
   | L [A 2%Z; t] => option_map NStr (dStr t)
   | _ => None
   end.
-Definition dec_dflt (z : Z) : option dflt :=
-  match z with 0%Z => Some DNone | 1%Z => Some DScalar | 2%Z => Some DList | _ => None end.
-Definition enc_dflt (d : dflt) : sexp := A (match d with DNone => 0 | DScalar => 1 | DList => 2 end)%Z.
+(* defaults travel in the value encoding of the harness (hutil.enc_val): (0) = None, (5 (items)) = a list, anything else =
+   a value that is neither *)
+Definition dec_dflt (s : sexp) : option dflt :=
+  match s with
+  | L [A 0%Z] => Some DNone
+  | L [A 5%Z; L items] => Some (DList items)
+  | L (A 0%Z :: _) | L (A 5%Z :: _) | A _ | L [] => None
+  | raw => Some (DScalar raw)
+  end.
+Definition enc_dflt (d : dflt) : sexp :=
+  match d with DNone => L [A 0%Z] | DScalar raw => raw | DList items => L [A 5%Z; L items] end.
 Definition enc_bits (f : Z) (ks : list Z) : sexp := L (map (fun k => sB (bit f k)) ks).
 
-(* case kinds: 0 option, 1 argument, 2 command option, 3 conversion *)
+Definition decimals_in (lo hi : N) : list (N * N) :=
+  rev (snd (N.iter (hi - lo) (fun st => let '(x, acc) := st in
+                                        (N.succ x, match decimal_value x with Some v => (x, v) :: acc | None => acc end)) (lo, []))).
+
+(* case kinds: 0 option, 1 argument, 2 command option, 3 conversion, 4 conversion round trip, 5 decimal-digit table *)
 Definition run_C07 (s : sexp) : sexp :=
   match s with
-  | L [A 0%Z; ln; sn; A f; A d] =>
+  | L [A 0%Z; ln; sn; A f; d] =>
     match dec_name ln, dec_name sn, dec_dflt d with
     | Some ln, Some sn, Some d =>
       sRes (fun o => L [sStr (oo_long o); sOpt sStr (oo_short o); A (oo_flags o); enc_dflt (oo_default o);
@@ -178,7 +195,7 @@ Definition run_C07 (s : sexp) : sexp :=
            (mk_option ln sn f d)
     | _, _, _ => sBad
     end
-  | L [A 1%Z; n; A f; A d] =>
+  | L [A 1%Z; n; A f; d] =>
     match dec_name n, dec_dflt d with
     | Some n, Some d =>
       sRes (fun o => L [sStr (ao_name o); A (ao_flags o); enc_dflt (ao_default o);
@@ -199,5 +216,18 @@ Definition run_C07 (s : sexp) : sexp :=
     | Some t, Some nl, Some v => sRes enc_val (parse_typed t nl v)
     | _, _, _ => sBad
     end
+  (* round trip: the value as text (STRING conversion), and that text converted by the value's own type *)
+  | L [A 4%Z; A t; nl; v] =>
+    match dec_vtype t, dB nl, dec_val v with
+    | Some t, Some nl, Some v =>
+      sRes (fun p => L [enc_val (fst p); enc_val (snd p)])
+           (do txt <- parse_string v nl; do back <- parse_typed t nl txt; Ok (txt, back))
+    | _, _, _ => sBad
+    end
+  (* the decimal-digit table: every code point of [lo, hi) that int() reads as a digit, with its value *)
+  | L [A 5%Z; lo; hi] =>
+    match dN lo, dN hi with
+    | Some lo, Some hi => L [A 0%Z; sList (fun cv => L [sN (fst cv); sN (snd cv)]) (decimals_in lo hi)]
+    | _, _ => sBad end
   | _ => sBad
   end.
